@@ -42,7 +42,7 @@ RULE = ("one case = one invocation of the real `deep patch` (or of save_content_
         "pairs of JSON documents are generated (nested dict/list/str/int/float/bool/null, depth <= 4; B = edit script on A: "
         "key added/removed, value/type change, list insert/delete/append, nested edit, root replacement; or independent; or identical); "
         "fault schedules: none, every single fault point x {Exception, KeyboardInterrupt} x {--backup} x {--debug}, "
-        "pairs (all, for a subset of document pairs) and random triples; plus a round-trip-only stream (fault-free diff -> patch through the real CLI, 900 quick / 6000 thorough pairs): scalar lists related by insert/delete/replace/move/dup/rotate edit scripts (values.gen_atom_list_pair, JSON alphabets keeping 1/true/1.0 apart) and 'inserts in front of an unchanged run + deletes behind it', planted under 0-2 dict/list levels; non-trivial = a fault fired or A != B; "
+        "pairs (all, for a subset of document pairs) and random triples; document pools include member names beginning/ending with one kind of quote character, non-ASCII / astral / unpaired-surrogate text in values and names, 400-digit integers and out-of-range floats (1e999 = inf) with int<->float changes whose constructor call overflows; a separate-process stream runs the CLI under LC_ALL=C PYTHONUTF8=0 on documents with non-ASCII text; plus a round-trip-only stream (fault-free diff -> patch through the real CLI, 900 quick / 6000 thorough pairs): scalar lists related by insert/delete/replace/move/dup/rotate edit scripts (values.gen_atom_list_pair, JSON alphabets keeping 1/true/1.0 apart) and 'inserts in front of an unchanged run + deletes behind it', planted under 0-2 dict/list levels; non-trivial = a fault fired or A != B; "
         "distinct = distinct (A text, B text, flags, schedule)")
 TRUSTED = [
     "the file system is modelled abstractly (path -> option content) with POSIX semantics: os.rename is atomic, replaces an existing regular file, "
@@ -250,6 +250,17 @@ def gen_list_pair(rng):
         kinds = ["front_inserts_back_deletes"]
     a, b = plant_json(rng, rng.choice([0, 1, 1, 2]), x, y)
     return a, b, ["list:" + k for k in (kinds or ["none"])]
+
+
+NUMBER_LEAVES = [(HUGE, 1.5), (-HUGE, 2.0), (10 ** 400, 0.5), (INF, 3), (-INF, 0), (INF, HUGE), (1.5, HUGE), (3, INF), (HUGE, INF),
+                 ([HUGE, 1], [2.5, 1]), ([INF, "a"], [7, "a"]), ({"v": HUGE}, {"v": 1e308}), (1e308, HUGE), (HUGE, "s"), (INF, None)]
+
+
+def gen_number_pair(rng):
+    """int <-> float changes whose constructor call (float(old) / int(old)) overflows, planted under 0-2 levels"""
+    x, y = copy.deepcopy(rng.choice(NUMBER_LEAVES))
+    a, b = plant_json(rng, rng.choice([0, 1, 1, 2]), x, y)
+    return a, b, ["number:overflowing_type_change"]
 
 
 FIXED_PAIRS = [
@@ -1130,22 +1141,33 @@ def _docs(case):
     return [json.loads(case["a_text"]), json.loads(case["b_text"])]
 
 
+def _first_clause(case, extra=()):
+    """the 'reproduces' clause of a fault-free run, or its direct consequence: when `deep patch` itself fails
+    (non-zero exit / exception) no backup is left either"""
+    if case.get("faults"):
+        return False
+    cl = case.get("clause")
+    if cl == "reproduces" or cl in extra:
+        return True
+    return cl == "backup" and (case.get("observed") or {}).get("cli") != ["exit", 0]
+
+
 def m_typehook(case):
     """some JSON object in A or B has both keys old_type and new_type: the
     loader's object_hook replaces type-name strings in it by Python types."""
-    if case.get("clause") not in ("reproduces", "diff"):
+    if not _first_clause(case, ("diff",)):
         return False
     return any("old_type" in d and "new_type" in d for doc in _docs(case) for d in dicts_of(doc))
 
 
 def m_both_quotes(case):
-    if case.get("clause") != "reproduces":
+    if not _first_clause(case):
         return False
     return any(isinstance(k, str) and "'" in k and '"' in k for doc in _docs(case) for k in keys_of(doc))
 
 
 def m_escape_char(case):
-    if case.get("clause") != "reproduces":
+    if not _first_clause(case):
         return False
     return any(isinstance(k, str) and ESC in k for doc in _docs(case) for k in keys_of(doc))
 
@@ -1218,7 +1240,7 @@ def run(ctx):
     # pairs: planted scalar-list edit scripts + further random document pairs
     n_ref = 6000 if ctx.thorough else 900
     for j in range(n_ref):
-        a, b, kinds = gen_list_pair(rng) if j % 3 else gen_pair(rng)
+        a, b, kinds = gen_number_pair(rng) if j % 12 == 5 else (gen_list_pair(rng) if j % 3 else gen_pair(rng))
         tasks.append((len(pairs) + j, a, b, a_text_of(a, rng), kinds, "ref", rng.randrange(1 << 30), ctx.scratch))
     # the long tasks first
     with mp.get_context("fork").Pool(core.NCPU) as pool:
